@@ -35,8 +35,17 @@ static inline void write_barrier() {
 #endif
 }
 
+#ifdef LIBFIBER_VERIF
+/* the barrier below is inline assembly, invisible to compiler instrumentation:
+ * tells the checker's store-buffer machine that the buffer is drained here */
+extern void verif_fence(void);
+#endif
+
 /* this barrier orders writes against reads */
 static inline void store_load_barrier() {
+#ifdef LIBFIBER_VERIF
+  verif_fence();
+#endif
 #if defined(__i386__)
   __asm__ __volatile__("lock; addl $0,0(%%esp)" : : : "memory");
 #elif defined(__x86_64__)
